@@ -21,7 +21,7 @@ func codecPatterns() []string {
 	for _, p := range codecPkgs {
 		out = append(out, "./"+p)
 	}
-	return append(out, "./pkg/protocol/xprotocol", "./pkg/stream/xprotocol", "./pkg/protocol", "./pkg/stream/http")
+	return append(out, "./pkg/protocol/xprotocol", "./pkg/stream/xprotocol", "./pkg/protocol", "./pkg/stream/http", "./pkg/module/http2")
 }
 
 func init() {
@@ -315,13 +315,14 @@ func runC07(c *Ctx) {
 	c.Rule("C07.B2", "Drain only after the full-frame guard, by exactly the frame length; need-more-data edges are tight; no Drain before (nil,nil)", 20)
 	c.Rule("C07.B3", "matchers answer MatchAgain exactly below their (constant) width and never decide on fewer bytes than they read", 10)
 	c.Rule("C07.B3h", "the HTTP/1 detector gives a negative verdict only after it has seen as many bytes as it may read", 2)
+	c.Rule("C07.B2h", "HTTP/2 frame reader: re-read loops advance, drain once and last by the reported size, HPACK fed only after the block arrived", 5)
 	c.Rule("C07.B2d", "Dispatch: loop exits only on empty/(nil,nil)/error; a frame goes to handleFrame exactly once", 5)
 	c.Assumptions = append(c.Assumptions,
 		"lengths are mathematical integers on a 64-bit int; uint32 wrap-around of (length field + small constant), i.e. frames >= 4 GiB, is outside the model",
 		"IoBuffer axioms (mosn.io/pkg/buffer/iobuffer.go): Len()==len(Bytes()) when no mutating call on the buffer lies between; a slice keeps its length after a later Drain; Drain(n) is a silent no-op when n > Len()",
 		"TarsGo tars/protocol.TarsRequest returns PACKAGE_FULL only when len(input) >= the returned length (read from its source)",
 		"struct fields written and re-read within one decode function are not changed by the callees in between (store-to-load forwarding)")
-	c.NotDecided = append(c.NotDecided, "HTTP/1 (fasthttp) and HTTP/2 framing/CONTINUATION state", "protocol auto-detection loop beyond the matchers' own answers")
+	c.NotDecided = append(c.NotDecided, "HTTP/1 parsing beyond the detector (fasthttp); HTTP/2 beyond the frame reader (per-frame-type parsers, HPACK contents)", "protocol auto-detection loop beyond the matchers' own answers")
 
 	decodes, matchers := decodeRoots(c)
 	if len(decodes) < 5 {
@@ -337,6 +338,7 @@ func runC07(c *Ctx) {
 	br.runB3(matchers)
 	runC07Dispatch(c)
 	runC07HTTPMatcher(c)
+	runC07H2(c, "C07.B1", "C07.B2h")
 }
 
 // ---------------------------------------------------------------------------------------------
